@@ -9,7 +9,7 @@ from ptstat.world import mass_sym
 
 from ptstat import AnalysisError
 from ptstat.symval import SymObj, Phi, SymRaise, merge
-from .common import world, eq, dict_eq, fsite, raises, tuple_everywhere, _s
+from .common import world, eq, dict_eq, fsite, raises, tuple_everywhere, _s, constants_lint
 
 EXPLANATION = (
     "Value graphs (K4) of Formula.atoms/mass/charge/mass_fraction/molecular_mass, of "
@@ -184,6 +184,7 @@ def run(ctx):
         ctx.check(r == "ValueError", "R5", f"formula({label}) raises ValueError",
                   f"formula({label}) " + (f"raised {r}" if r else "returned a formula"), s_formula)
     ctx.floor("R5", 5)
+    constants_lint(ctx, "R6", ["electron_mass"], "the mass of an ion is the atom's mass minus charge * electron mass")
     ctx.unit("functions_inlined", len(set(I.calls)))
     ctx.unit("atom_kinds", len(w.KINDS))
     ctx.assume("sympy's algebra; the interpreter's model of Python attribute lookup "
